@@ -621,6 +621,11 @@ pub struct SimWriter {
 }
 impl WriteMessage for SimWriter {
     fn write_message(&self, buf: &[u8], locators: &[Locator]) {
+        // The real UDP sender resolves every destination locator before it touches the socket; that code runs
+        // here, in the caller's (the worker's) context, exactly as it would with the real transport.
+        for l in locators {
+            let _ = dust_dds::rtps_udp_transport::udp_transport::verif_resolve_destination(*l);
+        }
         let _sim = crate::alloc_count::exempt();
         send(self.node, buf, locators);
     }
